@@ -172,6 +172,10 @@ def get_type_graph(t: type) -> graphlib.TopologicalSorter[TypeNode]:
                 if module in (None, "__main__") and rest:
                     module = rest[0]
                 is_class = inspect.isclass(child)
+                # A class nested in a class lives in the module of its outermost class:
+                #   refer to it by its qualified name within that module.
+                if is_class and rest and getattr(child, "__module__", None):
+                    module, refname = child.__module__, qualname
                 ref = refs.forwardref(
                     refname, is_argument=is_argument, module=module, is_class=is_class
                 )
